@@ -1,6 +1,115 @@
 -------------------------------- MODULE JC06 --------------------------------
-(* C06 — contract of the recorded events of this property (stub).           *)
+(* C06 — comparison, equality, hashing and conditional selection are        *)
+(* mutually coherent.                                                       *)
+(*                                                                          *)
+(* Event classes (field op):                                                *)
+(*  "cmp"  a, b, ab, bb, sg, q -> r                                         *)
+(*         q in eq ne lt le gt ge: r = 1 iff the relation holds between the *)
+(*         represented integers; q = cmp: r = 0 Less / 1 Equal / 2 Greater  *)
+(*         (partial_cmp must be Some of that).  sg = 1: a, b are two's-     *)
+(*         complement patterns of Int at width ab.  Unsigned values are     *)
+(*         compared as numbers whatever their precisions (boxed operands    *)
+(*         are zero-padded to the longer one).                              *)
+(*  "pred" a, ab, sg, q -> r   is_zero is_nonzero is_one is_odd is_even     *)
+(*         is_negative is_positive is_min is_max                            *)
+(*  "hash" a, b -> eq, ha, hb  eq = 1 iff a = b, and eq = 1 => ha = hb      *)
+(*         (digests of std's DefaultHasher; nothing else is demanded)       *)
+(*  "sel"  a, b, ab, bb, ch, q -> r [, r2, rp, rp2]                         *)
+(*         select / assign: r = b if ch = 1 else a — exactly, all limbs;    *)
+(*         swap: (r, r2) = (b, a) if ch = 1 else (a, b);                    *)
+(*         condneg: r = -a mod 2^ab if ch = 1 else a;                       *)
+(*         rp / rp2 = precision of the returned boxed values.               *)
+(*  "opt"  option-like results: sm = is_some, sn = is_none, r = value of    *)
+(*         unwrap_or(def):                                                  *)
+(*         nonzero  (to_nz, NonZero::new)   some iff a # 0, value a         *)
+(*         odd      (to_odd, Odd::new)      some iff a odd, value a         *)
+(*         shift0   (overflowing shift by 0 / by >= BITS: big) some iff     *)
+(*                  big = 0, value a                                        *)
+(*         abs_sign (Int::new_from_abs_sign(a, ng)) some iff the magnitude  *)
+(*                  fits: a <= 2^(ab-1) - 1, or ng and a = 2^(ab-1);        *)
+(*                  value = two's complement of -a resp. a                  *)
+(* pm = "any": boxed form that asserts equal precisions (debug assertion)   *)
+(* while its documentation is silent about different ones: with ab # bb a   *)
+(* panic is accepted, or else the exact answer — never a wrong one.         *)
 EXTENDS BigNat
 
-JudgeC06(e, rg) == FALSE
+C06Has(e, f) == f \in DOMAIN e
+C06B(x) == IF x THEN 1 ELSE 0
+C06Mixed(e) == C06Has(e, "pm") /\ e.ab # e.bb
+
+C06Ord(e) == IF e.sg = 1 THEN SCmp(SVal(e.a, e.ab), SVal(e.b, e.bb)) ELSE Cmp(e.a, e.b)
+
+C06Cmp(e) ==
+  LET c == C06Ord(e)
+      x == CASE e.q = "eq"  -> C06B(c = 0)
+             [] e.q = "ne"  -> C06B(c # 0)
+             [] e.q = "lt"  -> C06B(c < 0)
+             [] e.q = "le"  -> C06B(c <= 0)
+             [] e.q = "gt"  -> C06B(c > 0)
+             [] e.q = "ge"  -> C06B(c >= 0)
+             [] e.q = "cmp" -> c + 1
+             [] OTHER -> -1
+  IN (C06Mixed(e) /\ e.k = "panic") \/ (e.k = "ok" /\ x >= 0 /\ e.r = x)
+
+C06Pred(e) ==
+  LET x == CASE e.q = "is_zero"     -> e.a = Zero
+             [] e.q = "is_nonzero"  -> e.a # Zero
+             [] e.q = "is_one"      -> e.a = One
+             [] e.q = "is_odd"      -> IsOdd(e.a)
+             [] e.q = "is_even"     -> ~IsOdd(e.a)
+             [] e.q = "is_negative" -> e.sg = 1 /\ SNeg(e.a, e.ab)
+             [] e.q = "is_positive" -> e.a # Zero /\ ~(e.sg = 1 /\ SNeg(e.a, e.ab))
+             [] e.q = "is_min"      -> e.a = (IF e.sg = 1 THEN Pow2(e.ab - 1) ELSE Zero)
+             [] e.q = "is_max"      -> e.a = (IF e.sg = 1 THEN Max2k(e.ab - 1) ELSE Max2k(e.ab))
+             [] OTHER -> FALSE
+  IN /\ e.q \in {"is_zero", "is_nonzero", "is_one", "is_odd", "is_even", "is_negative", "is_positive", "is_min", "is_max"}
+     /\ e.k = "ok"
+     /\ e.r = C06B(x)
+
+C06Hash(e) ==
+  /\ e.k = "ok"
+  /\ e.eq = C06B(e.a = e.b)
+  /\ (e.a = e.b) => (e.ha = e.hb)
+
+C06Prec(e, f, p) == C06Has(e, f) => (IF C06Mixed(e) THEN e[f] \in {e.ab, e.bb} ELSE e[f] = p)
+
+C06SelOK(e) ==
+  LET one == e.ch = 1
+  IN /\ e.k = "ok"
+     /\ CASE e.q \in {"select", "assign"} ->
+               /\ e.r = (IF one THEN e.b ELSE e.a)
+               /\ C06Prec(e, "rp", IF one THEN e.bb ELSE e.ab)
+          [] e.q = "swap" ->
+               /\ e.r  = (IF one THEN e.b ELSE e.a)
+               /\ e.r2 = (IF one THEN e.a ELSE e.b)
+               /\ C06Prec(e, "rp",  IF one THEN e.bb ELSE e.ab)
+               /\ C06Prec(e, "rp2", IF one THEN e.ab ELSE e.bb)
+          [] e.q = "condneg" ->
+               /\ e.r = (IF one THEN NegMod2k(e.a, e.ab) ELSE e.a)
+               /\ C06Has(e, "rp") => e.rp = e.ab
+          [] OTHER -> FALSE
+
+C06Sel(e) == (C06Mixed(e) /\ e.k = "panic") \/ C06SelOK(e)
+
+C06Opt(e) ==
+  LET half == Pow2(e.ab - 1)
+      some == CASE e.q = "nonzero"  -> e.a # Zero
+                [] e.q = "odd"      -> IsOdd(e.a)
+                [] e.q = "shift0"   -> e.big = 0
+                [] e.q = "abs_sign" -> Lt(e.a, half) \/ (e.ng = 1 /\ e.a = half)
+                [] OTHER -> FALSE
+      val  == IF e.q = "abs_sign" /\ e.ng = 1 THEN NegMod2k(e.a, e.ab) ELSE e.a
+  IN /\ e.q \in {"nonzero", "odd", "shift0", "abs_sign"}
+     /\ e.k = "ok"
+     /\ e.sm = C06B(some)
+     /\ C06Has(e, "sn") => e.sn = C06B(~some)
+     /\ C06Has(e, "r") => e.r = (IF some THEN val ELSE e.def)
+
+JudgeC06(e, rg) ==
+  CASE e.op = "cmp"  -> C06Cmp(e)
+    [] e.op = "pred" -> C06Pred(e)
+    [] e.op = "hash" -> C06Hash(e)
+    [] e.op = "sel"  -> C06Sel(e)
+    [] e.op = "opt"  -> C06Opt(e)
+    [] OTHER -> FALSE
 =============================================================================
